@@ -373,7 +373,7 @@ SHAPES_FOR_POST = {
     'assocNames': ['assoc_inames', 'assoc_cnames', 'void', 'empty'],
     'execQuery': [],          # VALUE.OBJECT results: via the mock only (ExecQuery is NOT_SUPPORTED there)
     'pullInstsPath': ['pull_insts', 'pull_insts', 'pull_insts', 'pull_nopath', 'pull_inames'],
-    'pullInsts': ['pull_nopath', 'pull_nopath', 'pull_insts', 'pull_inames'],
+    'pullInsts': ['pull_nopath', 'pull_nopath', 'pull_nopath', 'pull_inames'],   # INSTANCE elements carry no path
     'pullPaths': ['pull_inames', 'pull_inames', 'pull_inames', 'pull_nopath'],
     'openQuery': ['pull_nopath'],
     'enumClasses': ['classes', 'classes', 'empty', 'void'],
